@@ -868,7 +868,31 @@ func (c *fctx) assigned(n ast.Node) []envKey {
 		}
 		return true
 	})
+	// canonical order: by the position of the variable's declaration (then by field), so that
+	// the order in which a loop body or an if-arm happens to assign its variables does not
+	// change the shape of the generated state tuple
+	sort.SliceStable(out, func(a, b int) bool {
+		pa, pb := out[a].obj.Pos(), out[b].obj.Pos()
+		if pa != pb {
+			return pa < pb
+		}
+		return c.fieldIndex(out[a]) < c.fieldIndex(out[b])
+	})
 	return out
+}
+
+func (c *fctx) fieldIndex(k envKey) int {
+	if k.field == "" {
+		return -1
+	}
+	if r := c.recOf(k.obj); r != nil {
+		for i, f := range r.fields {
+			if f.name == k.field {
+				return i
+			}
+		}
+	}
+	return 0
 }
 
 // mutatedReceiver: for a statement call x.M(...) of a module method with pointer receiver
@@ -2424,6 +2448,29 @@ func (c *fctx) callN(x *ast.CallExpr, nres int) string {
 					c.fail(x.Pos(), "make of something other than a slice with a length")
 				}
 				return fmt.Sprintf("(go_make %s %s)", c.zero(*t.elem, x.Pos()), c.indexTerm(x.Args[1]))
+			case "append":
+				// append(xs, v1, ..., vk) and append(xs, ys...): the new slice value (slices are
+				// values here: the write into spare capacity that Go may share with xs is not modelled)
+				t := c.typeOf(c.info.TypeOf(x), x.Pos())
+				if t.k != kSlice || len(x.Args) < 1 {
+					c.fail(x.Pos(), "append on something other than a slice")
+				}
+				base := c.exprAs(x.Args[0], c.info.TypeOf(x))
+				if x.Ellipsis != token.NoPos {
+					if len(x.Args) != 2 {
+						c.fail(x.Pos(), "append with a spread argument and other arguments")
+					}
+					return fmt.Sprintf("(%s ++ %s)", base, c.expr(x.Args[1]))
+				}
+				et := c.info.TypeOf(x).Underlying().(*types.Slice).Elem()
+				var vs []string
+				for _, a := range x.Args[1:] {
+					vs = append(vs, c.exprAs(a, et))
+				}
+				if len(vs) == 0 {
+					return base
+				}
+				return fmt.Sprintf("(%s ++ [%s])", base, strings.Join(vs, "; "))
 			}
 			c.fail(x.Pos(), "builtin %s", b.Name())
 		}
